@@ -38,7 +38,7 @@ CHECKS = {
     ),
     "C06": (
         "exploration",
-        "post-condition on the real format_agp at every call site (tee on the file argument) validated by an independent AGP validator; workloads: all remap outputs, FASTA .agp caches, asm-format, pretext-to-asm AGP and FASTA+AGP outputs (object length = record length)",
+        "post-condition on the real format_agp at every call site (tee on the file argument) validated by an independent AGP validator; workloads: all remap outputs, FASTA .agp caches, asm-format, pretext-to-asm AGP and FASTA+AGP outputs with small stream buffers (object length = record length); fault-injection leg (FASTA writer fails part-way: any AGP left must match the FASTA beside it)",
         "Every AGP text that any workload causes the tools to write is validated for tiling from 1, part numbers, spans, U/yes/gap type and last end = scaffold length (and FASTA record length where a FASTA is written with it).",
         "Gap length >= 1; assemblies with duplicate object names are left to C10.",
         "3-C06",
@@ -101,7 +101,7 @@ CHECKS = {
     ),
     "C14": (
         "exploration",
-        "icontract post-conditions on the real Scaffold.reverse and reverse_complement (fire in every workload), exhaustive 256-byte table, streaming law stream(S.reverse()) == revcomp(stream(S)) over G-fasta x G-sub x buffers, in-situ reversals of the remap pipeline",
+        "icontract post-conditions on the real Scaffold.reverse, reverse_complement and OverlapResult.to_scaffold (fire in every workload), exhaustive 256-byte table, streaming law stream(S.reverse()) == revcomp(stream(S)) over G-fasta x G-sub x buffers, in-situ reversals of the remap pipeline incl. unknown-orientation baits",
         "Every reversal / reverse-complement executed by the workloads is compared with an independent row-mirror and an IUPAC table derived from base sets; the stream law is decided on real streamed bytes.",
         "For '?' rows only the involution and mirrored-position laws are demanded (DESIGN 3-C14).",
         "3-C14",
@@ -109,20 +109,20 @@ CHECKS = {
     "C15": (
         "fault_enumeration",
         "process-level controlled scheduler + crash injector over real forked auto_load processes (yield points: sys.monitoring LINE events of the cache functions, raw FileIO write/read/close = flush boundaries, os.stat/replace/unlink); history driver on a logical mtime clock; oracle = reference index of the FASTA's current bytes or a loud failure",
-        "Crash points: the indexing process is killed at EVERY yield point of each scenario (cold, stale, equal mtime, .fai or .agp deleted; 2-record and 800-record files with interior flush boundaries) and a fresh load is judged per distinct on-disk state. Interleavings: every preemption position for 2 processes/1 preemption, 3 processes/1 preemption, 3 processes/2 preemptions at file operations (quick) plus 2 processes/2 preemptions (thorough) and random-priority schedules. Histories: all sequences up to length 3 (quick) / 4 (thorough) over the property's alphabet plus random ones to length 10.",
+        "Crash points: the indexing process is killed at EVERY yield point of each scenario (cold, stale, equal mtime, .fai or .agp deleted, fresh; 2-record and 800-record files with interior flush boundaries) and a fresh load (and a second one after recovery) is judged per distinct on-disk state. Interleavings: every preemption position for 2 processes/1 preemption, 3 processes/1 preemption, 3 processes/2 preemptions at file operations (quick) plus 2 processes/2 preemptions (thorough) and random-priority schedules. Histories: all sequences up to length 3 (quick) / 4 (thorough) over the property's alphabet plus random ones to length 10, also with the FASTA reached through a symbolic link.",
         "Process crashes (completed writes persist, user-space buffers lost, no torn write); FASTA not edited while being indexed; bounds as stated; scheduling granularity = statements of tola/fasta/index.py cache functions + raw file operations.",
         "3-C15",
     ),
     "C16": (
         "exploration",
-        "audit hook (sys.addaudithook: open flags / rename / remove / truncate on pre-existing output paths) around the real CLI in process + post-run bytes/inode/mtime comparison, exit status and error text; strace on the console entry point as independent observer; --clobber leg vs reference run",
+        "audit hook (sys.addaudithook: open flags / rename / remove / truncate on pre-existing output paths) around the real CLI in process + post-run bytes/inode/mtime comparison, exit status and error text; hostile legs (symlinked / dangling / empty pre-existing paths, a competitor creating the file just before the open, injected from the audit hook); strace on the console entry point as independent observer; --clobber leg vs reference run",
         "For each generated case the output file set is fixed by a reference run; every non-empty subset (<=6 files) or singletons+full+sampled subsets is pre-created with sentinels and the CLI run with --no-clobber under the monitors, over FASTA/AGP/TPF output, log on/off, single- and multi-assembly designs.",
         "The FASTA index cache is not an output file; 'completely rewritten' = byte equality with the reference run.",
         "3-C16",
     ),
     "C17": (
         "exploration",
-        "differential observer: byte equality of all output files between a reference run and runs differing in one axis (PYTHONHASHSEED subprocesses, cwd, stream buffer, cache cold/warm, in-process history, fresh interpreter); FASTA/AGP/TPF input leg; asm-format; the 12 specimens",
+        "differential observer: byte equality of all output files between a reference run and runs differing in one axis (PYTHONHASHSEED subprocesses, cwd, stream buffer, cache cold/warm, earlier AND later invocations in the same process, fresh interpreter); tag-noise cases (several special tags per scaffold) under 6-12 hash seeds; FASTA/AGP/TPF input leg; asm-format; the 12 specimens",
         "Each generated case (tag-rich designs incl. two haplotypes) and each specimen is run along every axis and all files compared byte for byte.",
         "Same output directory for all runs of a case, so absolute paths in logs coincide by construction.",
         "3-C17",
